@@ -84,6 +84,25 @@ template<typename TS> static std::string tree_structure(const TS& ts)
 	if (ts.mRootNode != nullptr) tree_walk(ts.mRootNode, 0, r);
 	return r;
 }
+
+// node pools: how many live nodes were allocated from this set's NodeParams (internal + leaf pools) vs nodes in its tree
+template<typename Node> static size_t tree_count_nodes(Node* node)
+{
+	size_t n = 1;
+	if (!node->IsLeaf()) for (size_t i = 0; i <= node->GetCount(); ++i) n += tree_count_nodes(node->GetChild(i));
+	return n;
+}
+template<typename TS> static bool tree_pools_own_nodes(const TS& ts, std::string& what)
+{
+	size_t nodes = ts.mRootNode != nullptr ? tree_count_nodes(ts.mRootNode) : 0, pooled = 0;
+	if (ts.mNodeParams != nullptr)
+	{
+		pooled = ts.mNodeParams->mInternalMemPool.GetAllocateCount();
+		for (size_t i = 0; i < ts.mNodeParams->mLeafMemPools.GetCount(); ++i) pooled += ts.mNodeParams->mLeafMemPools[i].GetAllocateCount();
+	}
+	if (nodes != pooled) { what = "tree-has-" + std::to_string(nodes) + "-nodes-but-its-pools-hold-" + std::to_string(pooled); return false; }
+	return true;
+}
 template<typename MM_> static std::string multi_structure(const MM_& mm)
 {
 	size_t gens = 0; for (auto* bk = mm.mHashMap.mHashSet.mBuckets; bk != nullptr; bk = bk->GetNextBuckets()) ++gens;
@@ -156,6 +175,7 @@ struct AdTreeSet : NatSet<NTreeSet, E>
 	static NTreeSet make(int id) { return NTreeSet(TTraits(), MM(id)); }
 	static std::string structure(const NTreeSet& c) { return tree_structure(c); }
 	static void merge(NTreeSet& dst, NTreeSet& src) { dst.MergeFrom(src); }
+	static bool pools_ok(const NTreeSet& c, std::string& w) { return tree_pools_own_nodes(c, w); }
 	static bool find(const NTreeSet& c, int64_t v) { return c.ContainsKey(E(v)); }
 	static void unusual(NTreeSet&, char, int) { g_unusual = true; }
 };
@@ -194,6 +214,7 @@ struct AdTreeMap : NatMap<NTreeMap>
 	static NTreeMap make(int id) { return NTreeMap(TTraits(), MM(id)); }
 	static std::string structure(const NTreeMap& c) { return tree_structure(c.mTreeSet); }
 	static void merge(NTreeMap& dst, NTreeMap& src) { dst.MergeFrom(src); }
+	static bool pools_ok(const NTreeMap& c, std::string& w) { return tree_pools_own_nodes(c.mTreeSet, w); }
 	static bool find(const NTreeMap& c, int64_t v) { return c.ContainsKey(E(v)); }
 	static int id(const NTreeMap& c) { return c.mTreeSet.mCrew.mData == nullptr ? -1 : mm_id(c); }
 	static void unusual(NTreeMap&, char, int) { g_unusual = true; }
@@ -229,16 +250,22 @@ struct AdHashMulti
 	}
 };
 
-struct Rw { int64_t k; E v; };
+struct Rw { int64_t k; int64_t g; E v; };
 MOMO_DATA_COLUMN_STRUCT(Rw, k);
+MOMO_DATA_COLUMN_STRUCT(Rw, g);
 MOMO_DATA_COLUMN_STRUCT(Rw, v);
 typedef momo::DataColumnListStatic<Rw, momo::DataColumnInfo<Rw>, MM> TColumns;
 typedef momo::DataTable<TColumns> NTable;
 struct AdTable
 {
-	typedef NTable Cont; typedef Cont C; static const bool crew = true, multi = true, alloc_move_ctor = false, is_stdish = false;
-	static C make(int id) { return C(TColumns(MM(id))); }
-	static void ins(C& c, int64_t x) { NTable::Row row = c.NewRow(); row[k] = x; row[v] = E(x + 7); c.Add(std::move(row)); }
+	typedef NTable Cont; typedef Cont C; static const bool crew = true, multi = false, alloc_move_ctor = false, is_stdish = false;
+	// one unique hash index (k) and one multi hash index (g = k % 3): rebuilt by a copy, stolen by a move
+	static C make(int id) { C t{TColumns(MM(id))}; t.AddUniqueHashIndex(k); t.AddMultiHashIndex(g); return t; }
+	static void ins(C& c, int64_t x)
+	{
+		NTable::Row row = c.NewRow(); row[k] = x; row[g] = (x / 3) % 3; row[v] = E(x + 7);
+		try { c.Add(std::move(row)); } catch (const NTable::UniqueIndexViolation&) { }      // set semantics
+	}
 	static void erase_all(C& c) { while (c.GetCount() > 0) c.Remove(c.GetCount() - 1); }
 	static void erase1(C& c, int64_t x) { for (size_t i = c.GetCount(); i > 0; --i) if (c[i - 1][k] == x) { c.Remove(i - 1); return; } }
 	static Vals contents(const C& c)
@@ -259,7 +286,11 @@ struct AdTable
 		size_t fr = 0;
 		if (c.mCrew.mData != nullptr)
 			for (void* raw = c.mCrew.mData->freeRaws.load(); raw != nullptr; raw = momo::internal::MemCopyer::FromBuffer<void*>(raw)) ++fr;
-		return "D" + std::to_string(c.GetCount()) + "." + std::to_string(fr);
+		std::string r = "D" + std::to_string(c.GetCount()) + "." + std::to_string(fr) + ":";
+		bool first = true;
+		for (size_t i = 0; i < c.mIndexes.mUniqueHashes.GetCount(); ++i) { if (!first) r += ","; first = false; r += "u" + std::to_string(c.mIndexes.mUniqueHashes[i].mHashSet.GetCount()); }
+		for (size_t i = 0; i < c.mIndexes.mMultiHashes.GetCount(); ++i) { if (!first) r += ","; first = false; r += "m" + std::to_string(c.mIndexes.mMultiHashes[i].mHashMultiMap.GetKeyCount() + c.mIndexes.mMultiHashes[i].mHashMultiMap.GetCount()); }   // first raw of a group is the key, the others its values
+		return r;
 	}
 	static void unusual(C& c, char kind, int)
 	{
@@ -455,13 +486,14 @@ void AdUMap::unusual(SUMap& c, char kind, int n) { if (kind == 'g' || kind == 'h
 // ------------------------------------------------------------------------------------------- generic driver
 template<typename Ad, typename = void> struct HasMerge : std::false_type {};
 template<typename Ad> struct HasMerge<Ad, std::void_t<decltype(&Ad::merge)>> : std::true_type {};
-struct Case { std::string kind, op, ss, ts, post, sst, tst; int sid, tid, aid; };
+struct Case { std::string kind, op, ss, ts, post, sst, tst, est; int sid, tid, aid; };
 
 template<typename Ad> static void build(typename Ad::Cont& c, const std::string& st, int64_t base)
 {
 	char k = st[0]; int n = st.size() > 1 ? atoi(st.c_str() + 1) : 0;
 	if (k == 'e') return;
 	if (k == 'g' || k == 'h') { g_base = base; Ad::unusual(c, k, n); return; }
+	if (k == 'r') { for (int i = 0; i < n; ++i) { Ad::ins(c, base + 3 * i); if (Ad::multi && Ad::crew && i % 4 == 0) Ad::ins(c, base + 3 * i); } return; }   // traversal order
 	for (int i = 0; i < n; ++i) Ad::ins(c, base + 3 * i);
 	if (Ad::multi && Ad::crew && k != 'c') for (int i = 0; i < n; i += 4) Ad::ins(c, base + 3 * i);   // duplicates
 	if (k == 'c') Ad::erase_all(c);
@@ -537,16 +569,27 @@ template<typename Ad> static void run_case(const Case& cs, FILE* out)
 		std::string tie1;
 		{
 			char buf[64]; snprintf(buf, sizeof buf, " mv=%d cp=%d", dm > 0 && !iscopy, dc > 0);   // element moves inside a fresh copy are its own business
-			bool ew = (op == "movea" || op == "moveca") && Ad::crew && sId != -1;      // element-wise path: rebuilt by insertion, shape not predicted
-			std::string tst2 = (self || none) ? "-" : ew ? "?" : Ad::structure(T);
-			std::string sst2 = sId == -1 ? "null" : ew ? "?" : Ad::structure(S);
+			bool ew = (op == "movea" || op == "moveca") && Ad::crew && sId != -1;      // element-wise path: rebuilt by insertion (shape = the token est)
+			bool mergex = op == "merge" && !s0.empty() && !(t0.empty() && cs.sid == cs.tid);           // merge other than the swap path: joined / rebuilt tree
+			if (mergex) ew = true;
+			std::string tst2 = (self || none) ? "-" : mergex ? "?" : Ad::structure(T);
+			std::string sst2 = sId == -1 ? "null" : Ad::structure(S);
 			tie1 = "ok T=" + idstr(tId) + " S=" + idstr(sId) + " tc=" + show(tc) + " sc=" + show(sc) + buf + " ts=" + tst2 + " ss=" + sst2;
 		}
 		tie = tie1;
 		if (op == "merge")
 		{
-			if (tc != s0 || !sc.empty()) fail("merge-into-empty-wrong");
-			C dead(std::move(S));      // the source's crew dies here; the target's node pools must not depend on it
+			Vals un = t0; un.insert(un.end(), s0.begin(), s0.end()); std::sort(un.begin(), un.end());
+			if (tc != un || !sc.empty()) fail("merge-result-wrong");
+			if (dc != 0) fail("merge-copied-elements");
+			if constexpr (HasMerge<Ad>::value)
+			{
+				// every node of a tree lives in a pool buffer of the NodeParams of the set that holds the tree (NodeParams::MergeFrom
+				// hands the source's buffers over to the target: afterwards each buffer belongs to exactly one params)
+				std::string w1; if (!Ad::pools_ok(T, w1)) fail("target-" + w1); if (!Ad::pools_ok(S, w1)) fail("source-" + w1);
+			}
+			if (cs.post == "none") { C dead(std::move(S)); }      // the source's crew dies here; the target's node pools must not depend on it
+			// (with post == clear the source stays alive and is cleared; the target is destroyed after it)
 		}
 		if (iscopy)
 		{
@@ -664,14 +707,14 @@ static bool dispatch(const Case& cs, FILE* out)
 
 int main()
 {
-	static char line[70000];
+	static char line[100000];
 	while (fgets(line, sizeof line, stdin))
 	{
 		char trs[32], kind[32], op[32], ss[32], ts[32], post[32]; Case cs;
-		static char sst[30000], tst[30000];
-		int nf = sscanf(line, "%31s %31s %31s %31s %31s %d %d %d %31s %29999s %29999s", trs, kind, op, ss, ts, &cs.sid, &cs.tid, &cs.aid, post, sst, tst);
-		if (nf != 9 && nf != 11) { puts("? | orc=unparsable-case"); continue; }
-		cs.sst = nf == 11 ? sst : "*"; cs.tst = nf == 11 ? tst : "*";
+		static char sst[30000], tst[30000], est[30000];
+		int nf = sscanf(line, "%31s %31s %31s %31s %31s %d %d %d %31s %29999s %29999s %29999s", trs, kind, op, ss, ts, &cs.sid, &cs.tid, &cs.aid, post, sst, tst, est);
+		if (nf != 9 && nf != 11 && nf != 12) { puts("? | orc=unparsable-case"); continue; }
+		cs.sst = nf >= 11 ? sst : "*"; cs.tst = nf >= 11 ? tst : "*"; cs.est = nf == 12 ? est : "*";
 #ifdef NATIVE
 		if (strcmp(trs, "N") != 0) { puts("wrong-binary | orc=wrong-binary"); continue; }
 #else
